@@ -322,7 +322,6 @@ def pass5 (f : File) : Pass :=
   let fuel := s.decls.length + 1
   let per := s.entities.map fun e =>
     let overl := e.attrs.flatMap fun a =>
-      if a.inverseFor.isSome then [] else
       (supersOf s e).map fun sup => (namedAttr s a.name fuel sup, mk f.path LibErrors.OVERLOADED_ATTR a.line [sArg a.name, sArg sup])
     let rules := e.rules.flatMap fun r => r.items.flatMap fun
       | .call fn argc =>
